@@ -350,6 +350,50 @@ func constInts(v ssa.Value, depth int) []int64 {
 		return constInts(v.X, depth+1)
 	case *ssa.ChangeType:
 		return constInts(v.X, depth+1)
+	case *ssa.Parameter:
+		// the union over the arguments at every static call of the function (none known: not decided)
+		fn := v.Parent()
+		if fn == nil || curCtx == nil || fn.Pkg == nil {
+			return nil
+		}
+		idx := -1
+		for i, p := range fn.Params {
+			if p == v {
+				idx = i
+			}
+		}
+		if idx < 0 {
+			return nil
+		}
+		var out []int64
+		sites := 0
+		for _, caller := range curCtx.srcFuncs(strings.TrimPrefix(strings.TrimPrefix(fn.Pkg.Pkg.Path(), modPath), "/")) {
+			for _, b := range caller.Blocks {
+				for _, in := range b.Instrs {
+					ci, ok := in.(ssa.CallInstruction)
+					if !ok || ci.Common().StaticCallee() != fn || idx >= len(ci.Common().Args) {
+						continue
+					}
+					sites++
+					s := constInts(ci.Common().Args[idx], depth+2)
+					if s == nil {
+						return nil
+					}
+					out = append(out, s...)
+				}
+			}
+		}
+		if sites == 0 {
+			return nil
+		}
+		return out
+	case *ssa.Extract:
+		if lk, ok := v.Tuple.(*ssa.Lookup); ok && v.Index == 0 {
+			return constTableValues(lk, false)
+		}
+		return nil
+	case *ssa.Lookup:
+		return constTableValues(v, !v.CommaOk)
 	case *ssa.Call:
 		// a helper that computes the constant: the union over its returns
 		cal := v.Call.StaticCallee()
@@ -526,4 +570,44 @@ func (c *Ctx) exclusiveRegion(pkgShort string, root *ssa.Function) map[*ssa.Func
 	}
 	c.memo[key] = region
 	return region
+}
+
+// curCtx: the program under analysis, for the helpers that resolve values across functions.
+var curCtx *Ctx
+
+// constTableValues: the values a lookup in a package-level table that is never written can yield (plus the zero value
+// when a missing key is not told apart).
+func constTableValues(lk *ssa.Lookup, withZero bool) []int64 {
+	if curCtx == nil {
+		return nil
+	}
+	ld, ok := lk.X.(*ssa.UnOp)
+	if !ok || ld.Op != token.MUL {
+		return nil
+	}
+	g, ok := ld.X.(*ssa.Global)
+	if !ok {
+		return nil
+	}
+	ct := curCtx.constTableOf(g.Object())
+	if ct == nil || !ct.isMap || len(ct.strs) > 0 || len(ct.ints) == 0 {
+		return nil
+	}
+	if k, ok := lk.Index.(*ssa.Const); ok && k.Value != nil {
+		if kv, ok := constant.Int64Val(k.Value); ok {
+			if v, found := ct.ints[kv]; found {
+				return []int64{v}
+			}
+			return []int64{0}
+		}
+	}
+	var out []int64
+	for _, v := range ct.ints {
+		out = append(out, v)
+	}
+	sort.Slice(out, func(i, j int) bool { return out[i] < out[j] })
+	if withZero {
+		out = append(out, 0)
+	}
+	return out
 }
